@@ -34,11 +34,20 @@ TOL_CONS = 1e-6
 
 # ----------------------------------------------------------------------------- running
 def run_impl_cases(pid, cases, tag="impl"):
-    """Run cases in worker processes; isolate cases that crash or hang a worker."""
+    """Run cases in worker processes; isolate cases that crash or hang a worker.
+    Load / cold numba caches must never produce a verdict: a warm-up worker first calls every function once
+    (compiles and fills the numba cache, generous limit), chunks get a generous limit, and a case is only
+    reported as PROCESS-TIMEOUT after it has timed out ALONE with a 30 minute limit."""
     payload_of = lambda cs: dict(cases=[dict(fn=c["fn"], args=pl.case_args(c)) for c in cs])
+    seen, warm = set(), []
+    for c in cases:
+        if c["fn"] not in seen:
+            seen.add(c["fn"])
+            warm.append(c)
+    cm.run_impl(pid, "c10", payload_of(warm), timeout=3600, tag=tag + "_warm")     # result not used
     nw = min(cm.NCPU, max(1, len(cases) // 40))
     chunks = [cases[i::nw] for i in range(nw)]
-    res = cm.run_impl_parallel(pid, "c10", [payload_of(c) for c in chunks], timeout=900, tag=tag)
+    res = cm.run_impl_parallel(pid, "c10", [payload_of(c) for c in chunks], timeout=2400, tag=tag)
     out = [None] * len(cases)
     names = None
     for w, (rr, ch) in enumerate(zip(res, chunks)):
@@ -48,8 +57,10 @@ def run_impl_cases(pid, cases, tag="impl"):
             for i, x in zip(idxs, rr["result"]["results"]):
                 out[i] = x
         else:
-            singles = cm.run_impl_parallel(pid, "c10", [payload_of([c]) for c in ch], timeout=120, tag=tag + "_iso")
-            for i, s in zip(idxs, singles):
+            singles = cm.run_impl_parallel(pid, "c10", [payload_of([c]) for c in ch], timeout=900, tag=tag + "_iso")
+            for i, c, s in zip(idxs, ch, singles):
+                if s["status"] == "timeout":      # re-confirm alone, generous limit
+                    s = cm.run_impl(pid, "c10", payload_of([c]), timeout=1800, tag=tag + "_alone")
                 if s["status"] == "ok":
                     out[i] = s["result"]["results"][0]
                 else:
@@ -339,7 +350,9 @@ def coq_checker_planned():
 
 
 def build_targets(pid):
-    t = [f"theories/Props/{pid}.vo"]
+    # every .vo the generated evaluation files Require, not only the Props file
+    t = [f"theories/Props/{pid}.vo", "theories/Model/DistPrimRun.vo", "theories/Model/DistPrimCombRun.vo",
+         "theories/Model/DistPrimIterRun.vo"]
     if coq_checker_planned():
         t.append("theories/Checker/Prim.vo")
     return t
@@ -459,7 +472,7 @@ def run(tier, seed, replay=None):
             exprs.append(e)
             idx.append(i)
         try:
-            outs = cm.coq_eval_lines(PID, COQ_HEADER, exprs, tag="chk", per_file=max(20, len(exprs) // (3 * cm.NCPU) + 1))
+            outs = c10corr.eval_lines(PID, COQ_HEADER, exprs, "chk", max(20, len(exprs) // (3 * cm.NCPU) + 1))
             bad_idx = {id(c) for c, _, _ in bad}
             for i, o in zip(idx, outs):
                 n_coq += 1
